@@ -158,14 +158,14 @@ def core_of(obl, hyps, cfg, tmo=4000):
     return sorted({fingerprint(h) for h in info})
 
 
-def discharge(obl, timeout_ms=20000, use_cvc5=True, want_model=False, record=None, **_):
+def discharge(obl, timeout_ms=20000, use_cvc5=True, want_model=False, record=None, cheap_only=False, **_):
     """Discharge in a forked child with a hard wall-clock limit: some z3 procedures (the Diophantine handler of the
     arithmetic solver was caught at it) honour neither the resource limit nor the timeout nor an interrupt; the child is
     killed and the obligation counts as undecided ("hard wall-clock limit"), never as proved or refuted."""
     if os.environ.get("PYVC_NO_FORK"):
-        return _discharge(obl, timeout_ms, use_cvc5, record)
+        return _discharge(obl, timeout_ms, use_cvc5, record, cheap_only)
     import select
-    hard = 240.0 + timeout_ms / 1000.0 * 6
+    hard = 90.0 + timeout_ms / 1000.0 * 3          # quick: 150 s, thorough: 450 s per obligation
     t0 = time.time()
     rfd, wfd = os.pipe()
     pid = os.fork()
@@ -173,7 +173,7 @@ def discharge(obl, timeout_ms=20000, use_cvc5=True, want_model=False, record=Non
         try:
             os.close(rfd)
             rec = {} if record is not None else None
-            r = _discharge(obl, timeout_ms, use_cvc5, rec)
+            r = _discharge(obl, timeout_ms, use_cvc5, rec, cheap_only)
             with os.fdopen(wfd, "w") as f:
                 json.dump({"result": r, "record": rec}, f)
         except BaseException as e:          # noqa
@@ -221,7 +221,7 @@ def discharge(obl, timeout_ms=20000, use_cvc5=True, want_model=False, record=Non
             else "solver process died without an answer"}
 
 
-def _discharge(obl, timeout_ms=20000, use_cvc5=True, record=None):
+def _discharge(obl, timeout_ms=20000, use_cvc5=True, record=None, cheap_only=False):
     """Staged plan (iterative deepening): cheap attempts first.  The first `unsat` proves the
     obligation (a subset of the hypotheses suffices); `sat` on the full set refutes it.  A recorded
     proof hint (the hypotheses that sufficed last time) only selects a subset of the real
@@ -245,10 +245,11 @@ def _discharge(obl, timeout_ms=20000, use_cvc5=True, record=None):
         plan += [("hint-core", sub, c, cfg, 300) for c, cfg in cheap]
     for sname, hyps in sl:
         plan += [(sname, hyps, c, cfg, 250) for c, cfg in cheap]
-    if sub is not None:
-        plan += [("hint-core", sub, c, cfg, 2500) for c, cfg in deep]
-    for sname, hyps in sl:
-        plan += [(sname, hyps, c, cfg, timeout_ms // 5) for c, cfg in (deep + [S7] if sname == "all" else deep)]
+    if not cheap_only:
+        if sub is not None:
+            plan += [("hint-core", sub, c, cfg, 2500) for c, cfg in deep]
+        for sname, hyps in sl:
+            plan += [(sname, hyps, c, cfg, timeout_ms // 5) for c, cfg in (deep + [S7] if sname == "all" else deep)]
     for sname, hyps, cname, cfg, budget in plan:
         verdict, info = _try(hyps, obl.goal, cfg, budget)
         if verdict == "unsat":
@@ -261,6 +262,9 @@ def _discharge(obl, timeout_ms=20000, use_cvc5=True, record=None):
             return {"status": "refuted", "backend": "%s (z3 %s)" % (cname, z3.get_version_string()), "seconds": time.time() - t0}
         if verdict == "unknown":
             last = info
+    if cheap_only:
+        return {"status": "unknown", "backend": "z3 (cheap stage only)", "seconds": time.time() - t0,
+                "reason": "not pursued: this function already has undischarged obligations in this run"}
     if use_cvc5:
         r = cvc5_check(smt2_of(obl), timeout_ms // 2)
         if r == "unsat":
